@@ -220,3 +220,40 @@ Definition run_case (k : case) : option (list bool * list (list Z)) :=
   let '(t, es) := build fs in
   if blist_eqb es errs && forallb (obs_agree t) obs
   then None else Some (es, map (fun o => fst (model_obs t (fst (fst o)))) obs).
+
+(* ---- the loader stage (config/streams.utils.go: GetFlows -> ReadStreamFlowConfig
+   -> Filter.UnmarshalYAML) ----
+   A flow file is decoded into the filter the tree is built from.  As far as this
+   property goes the stage is the identity on the filter: the URL is kept AS
+   WRITTEN (upper-case letters in host labels and path segments included), the
+   status codes stay in the order written.  It is an explicit stage so that the
+   cases loaded through the production YAML loader are evaluated through it
+   ([run_case_loaded]) and so that a normalising variant can be stated and refuted
+   ([decode_lower]: the URL lower-cased at decode; Loader.v / Property.v). *)
+Definition with_url (d : tok -> tok) (f : flow) : flow :=
+  mkFlow (f_id f) (f_kind f) (d (f_url f)) (f_methods f) (f_headers f) (f_query f) (f_status f).
+Definition decode_keep (u : tok) : tok := u.        (* the code: the URL as written *)
+Definition decode_lower (u : tok) : tok := lower u. (* variant (refuted): lower-cased at decode *)
+Definition load_with (d : tok -> tok) (ws : list flow) : list flow := map (with_url d) ws.
+Definition load_flows (ws : list flow) : list flow := load_with decode_keep ws.
+
+(* cases whose flows were WRITTEN as flow files and read back by the loader
+   (tree level: streamconfig.GetFlows + AddFlow in a chosen order; engine level:
+   Stream.Initialize): the flows of the case are the flows as written *)
+Definition run_case_loaded (k : case) : option (list bool * list (list Z)) :=
+  let '(ws, errs, obs) := k in run_case (load_flows ws, errs, obs).
+
+(* ---- status_code list: variant (refuted) that looks the code up by bisection
+   (sort.SearchInts on the list as written, which nothing sorts) ---- *)
+Fixpoint bsearch (fuel : nat) (a : list Z) (x : Z) (i j : nat) : nat :=
+  match fuel with
+  | O => i
+  | S k =>
+      if (i <? j)%nat
+      then let h := Nat.div2 (i + j) in
+           if nth h a 0 <? x then bsearch k a x (S h) j else bsearch k a x i h
+      else i
+  end.
+Definition status_in_bsearch (l : list Z) (st : Z) : bool :=
+  let p := bsearch (S (length l)) l st 0 (length l) in
+  (p <? length l)%nat && (nth p l 0 =? st).
